@@ -445,3 +445,56 @@ pub fn fmt_times(t: &Times) -> String {
     }
     s
 }
+
+// ---------------------------------------------------------------- boundary-directed: the RA wrap
+
+/// JD (UT) at which the Sun's apparent right ascension wraps 360 -> 0 in March of `year`, from the independent
+/// ephemeris (bisection); cached. The library's own RA differs from the oracle's by ~0.003 deg, i.e. its wrap is
+/// within ~5 minutes of this instant.
+pub fn ra_wrap_jd(year: i32) -> f64 {
+    use std::sync::OnceLock;
+    static TABLE: OnceLock<Vec<f64>> = OnceLock::new();
+    let t = TABLE.get_or_init(|| {
+        (1600..=2399)
+            .map(|y| {
+                let f = |jd: f64| crate::oracle::ephem::norm180(crate::oracle::ephem::sun(jd).ra);
+                let mut lo = crate::oracle::ephem::jdn(y as i64, 3, 15) as f64;
+                let mut hi = crate::oracle::ephem::jdn(y as i64, 3, 25) as f64;
+                for _ in 0..60 {
+                    let mid = 0.5 * (lo + hi);
+                    if f(mid) < 0.0 {
+                        lo = mid;
+                    } else {
+                        hi = mid;
+                    }
+                }
+                0.5 * (lo + hi)
+            })
+            .collect()
+    });
+    t[(year.clamp(1600, 2399) - 1600) as usize]
+}
+
+/// (site, date) pairs whose *local midnight* (the instant the library evaluates the day's ephemeris at) lies within
+/// `window_min` minutes of the RA wrap of a generated year, or exactly one day before/after it (the library also
+/// evaluates day-1 and day+1). The GMT offset is constructed from the wrap instant, the longitude from the offset
+/// (within `mismatch` hours), so nothing is filtered. Random dates never come this close to the wrap.
+pub fn ra_wrap_site_date(latmax: f64, mismatch: f64, window_min: f64) -> BoxedStrategy<(Site, NaiveDate)> {
+    (1600..=2399i32, -window_min..=window_min, latitude(latmax), -mismatch..=mismatch, -1i64..=1, elevation())
+        .prop_map(|(year, u, lat, v, shift, elev)| {
+            let t = ra_wrap_jd(year) + u / 1440.0;
+            // UT date whose 0h is just before t, offset so that local midnight == t; move to the next date if the offset leaves [-12,12]
+            let mut d0 = (t + 0.5).floor() - 0.5;
+            let mut gmt = 24.0 * (d0 - t);
+            if gmt < -12.0 {
+                d0 += 1.0;
+                gmt += 24.0;
+            }
+            let jdn = (d0 + 0.5).round() as i64;
+            let date = NaiveDate::from_num_days_from_ce_opt((jdn - 1721425) as i32).unwrap();
+            let lon = (15.0 * (gmt + v)).clamp(-180.0, 180.0);
+            let date = clamp_date(date + chrono::Duration::days(shift));
+            (Site { lat: F(lat), lon: F(lon), elev: F(elev), gmt: F(gmt.clamp(-12.0, 12.0)) }, date)
+        })
+        .boxed()
+}
